@@ -6,6 +6,7 @@ import YatimlModel.Driver.JsonCmd
 import YatimlModel.Driver.NodeCmd
 import YatimlModel.Driver.LoadCmd
 import YatimlModel.Driver.DumpCmd
+import YatimlModel.Driver.RegCmd
 /-!
 The model driver: one request per line on stdin, one answer per line on stdout.
 -/
@@ -23,6 +24,7 @@ def handleSexp (line : String) : String :=
   | some (.atom "loaddoc" :: args) => Driver.cmdLoadDoc args
   | some (.atom "reqops" :: args) => Driver.cmdReqOps args
   | some (.atom "represent" :: args) => Driver.cmdRepresent args
+  | some (.atom "regshape" :: args) => Driver.cmdRegShape args
   | some _ => "bad-op"
   | none => "bad-syntax"
 
